@@ -8,6 +8,7 @@ import (
 
 	"github.com/DrmagicE/gmqtt"
 	"github.com/DrmagicE/gmqtt/persistence/subscription"
+	"github.com/DrmagicE/gmqtt/pkg/packets"
 
 	"verifsim/mqttc"
 	"verifsim/simnet"
@@ -997,6 +998,19 @@ func (w *World) issueAPI(o *OpRec) {
 			msg := &gmqtt.Message{Topic: op.Topic, QoS: op.QoS, Retained: op.Retain, Payload: PayloadOf(op)}
 			if op.MsgExpiry != nil {
 				msg.MessageExpiry = *op.MsgExpiry
+			}
+			if op.ContentType != nil {
+				msg.ContentType = *op.ContentType
+			}
+			if op.RespTopic != nil {
+				msg.ResponseTopic = *op.RespTopic
+			}
+			if op.PFmt != nil {
+				msg.PayloadFormat = *op.PFmt
+			}
+			msg.CorrelationData = op.Corr
+			for _, kv := range op.UserProps {
+				msg.UserProperties = append(msg.UserProperties, packets.UserProperty{K: []byte(kv[0]), V: []byte(kv[1])})
 			}
 			srv.Publisher().Publish(msg)
 		case "api_subscribe":
